@@ -163,7 +163,7 @@ func runC12(c *fw.Ctx) {
 	deeperBounds(!c.Quick())
 	// one loss object used for a sequence of batches of DIFFERENT shapes (equal element counts included), long batches included
 	for _, kind := range []string{"mse", "bce", "ce"} {
-		for i := 0; i < c.Pick(400, 6000); i++ {
+		for i := 0; i < c.Pick(400, 20000); i++ {
 			kind := kind
 			c.Case(func(k *fw.K) {
 				obj := lossObj(kind)
@@ -212,21 +212,46 @@ func runC12(c *fw.Ctx) {
 						k.Count("non_finite_batches_fed_before_a_finite_one", 1)
 						call(func() { _, _ = obj.Compute(rt.MustLeaf(bad, k.Rng.Intn(2) == 0), rt.MustLeaf(t, false)) })
 					}
-					var l tensor.Tensor
-					if pn := call(func() { l, err = obj.Compute(rt.MustLeaf(p, k.Rng.Intn(2) == 0), rt.MustLeaf(t, false)) }); pn != nil || err != nil || l == nil {
-						k.Failf("%s.Compute call %d on one object (shape %v, previous shapes %s): panic=%v err=%v", kind, s+1, shape, key, pn, err)
+					if k.Rng.Intn(3) == 0 { // a second loss object of the same kind evaluates another batch in between
+						dp, dt := ref.Full(shape, 0.3), ref.Full(shape, 1)
+						call(func() { _, _ = lossObj(kind).Compute(rt.MustLeaf(dp, false), rt.MustLeaf(dt, false)) })
+						k.Count("calls_on_a_second_object_of_the_same_kind_in_between", 1)
+					}
+					tp, tt := rt.MustLeaf(p, k.Rng.Intn(2) == 0), rt.MustLeaf(t, false)
+					evaluate := func(tp, tt tensor.Tensor, p, t *ref.T, want float64, tag string) bool {
+						var l tensor.Tensor
+						if pn := call(func() { l, err = obj.Compute(tp, tt) }); pn != nil || err != nil || l == nil {
+							k.Failf("%s.Compute call %d%s on one object (shape %v, previous shapes %s): panic=%v err=%v", kind, s+1, tag, shape, key, pn, err)
+							return false
+						}
+						v, err := l.At()
+						if err != nil || len(l.Shape()) != 0 {
+							k.Failf("%s.Compute result of shape %v unreadable: %v", kind, l.Shape(), err)
+							return false
+						}
+						if !ref.Close(v, want, lossTol(kind, p, t), 1e-9) {
+							k.Failf("%s.Compute call %d%s on one object (shape %v) = %v, the defined value is %v", kind, s+1, tag, shape, v, want)
+							return false
+						}
+						k.Count("loss_evaluations", 1)
+						return true
+					}
+					if !evaluate(tp, tt, p, t, want.Data[0], "") {
 						return
 					}
-					v, err := l.At()
-					if err != nil || len(l.Shape()) != 0 {
-						k.Failf("%s.Compute result of shape %v unreadable: %v", kind, l.Shape(), err)
-						return
+					if k.Rng.Intn(3) == 0 { // the next call shares exactly one tensor OBJECT with this one (the targets, or the predictions)
+						q := Shuffled(k.Rng, p)
+						if k.Rng.Intn(2) == 0 {
+							if w2, e := ref.Loss(kind, q, t); e == nil && !evaluate(rt.MustLeaf(q, false), tt, q, t, w2.Data[0], " (same target object, other predictions)") {
+								return
+							}
+						} else {
+							u := Shuffled(k.Rng, t)
+							if w2, e := ref.Loss(kind, p, u); e == nil && !evaluate(tp, rt.MustLeaf(u, false), p, u, w2.Data[0], " (same prediction object, other targets)") {
+								return
+							}
+						}
 					}
-					if !ref.Close(v, want.Data[0], lossTol(kind, p, t), 1e-9) {
-						k.Failf("%s.Compute call %d on one object (shape %v) = %v, the defined value is %v", kind, s+1, shape, v, want.Data[0])
-						return
-					}
-					k.Count("loss_evaluations", 1)
 				}
 				k.Key("%s/sequence/%s", kind, key)
 				k.Count("object_reuse_sequences", 1)
